@@ -1,3 +1,5 @@
 SPECIFICATION Spec
+CONSTANTS
+  Stratum = "all"
 INVARIANTS EmitCase
 CHECK_DEADLOCK FALSE
